@@ -214,8 +214,13 @@ func verifC16_AdminDelete() {
 func verifC17_MQTTCap() {
 	capacity := verifChoose("maxAllowedConnection", 2) + 1
 	b := vC16Broker(capacity)
-	ids := []string{"a", "a", "b"} // the second connection takes over id a
+	// every connection picks its client id: equal ids are takeovers, different ids compete
+	// for the last free slot
 	n := verifBound("connections")
+	var ids [3]string
+	for i := 0; i < n; i++ {
+		ids[i] = []string{"a", "b"}[verifChoose("clientID", 2)]
+	}
 	var conns [3]*vConn
 	for i := 0; i < n; i++ {
 		conns[i] = vConnect(ids[i], true, "")
